@@ -46,6 +46,20 @@ Clauses(S, o) ==
      <<"singletons", o.single = SingletonsOf(S)>>,
      <<"empty", o.empty = EmptyOf(S)>>,
      <<"maximal", o.max = MaximalOf(S, FALSE)>>,
+     <<"aggregates", o.agg = <<>> \/
+          LET d == SeqDegree(S) IN
+          /\ o.agg[1] = MaxOf(Range(d)) /\ o.agg[2] = MinOf(Range(d)) /\ o.agg[3] = SumSeq(d)
+          /\ o.agg[4] = ArgBest(S.nodes, d, LAMBDA a, b : a > b) /\ o.agg[5] = ArgBest(S.nodes, d, LAMBDA a, b : a < b)
+          /\ o.argsort = StableSort(S.nodes, d) /\ REq(o.mean, Rat(SumSeq(d), Len(d)))>>,
+     <<"properties", o.props = <<>> \/
+          /\ o.props[1] = UniqueEdgeSizes(S) /\ o.props[2] = <<MaxEdgeOrder(S)>> /\ o.props[3] = <<IsUniform(S)>>
+          /\ o.props[4] = [k \in 1..4 |-> NumEdgesOrder(S, k - 1)] /\ o.props[5] = <<NumEdgesOrder(S, None)>>
+          /\ o.props[6] = DegreeCounts(S)
+          /\ \A k \in DOMAIN o.enb : LET n == o.enb[k][1] IN
+                Len(o.enb[k][2]) = Degree(S, n) /\
+                \A X \in {S.e2n[e] \ {n} : e \in S.n2e[n]} \cup {Range(o.enb[k][2][q]) : q \in DOMAIN o.enb[k][2]} :
+                   Cardinality({q \in DOMAIN o.enb[k][2] : Range(o.enb[k][2][q]) = X})
+                     = Cardinality({e \in S.n2e[n] : S.e2n[e] \ {n} = X})>>,
      <<"maximal.strict", o.maxs = MaximalOf(S, TRUE)>> >>
 
 Verdict(r) ==
